@@ -45,6 +45,11 @@ func syncPlan(prop, tier string, seed uint64) (runs []syncRun, crashIsViolation 
 			// the later synchronisation from converging: split fetch/merge, closure from every state
 			fs := syncw.Params{Replicas: 2, Oracles: "c01", Seed: seed, Split: true, OneEdit: true, Closure: true}
 			runs = append(runs, syncRun{"2 replicas, split fetch/merge over the shared remote, synchronisation from every state", fs, 4, 45 * time.Second})
+			// a replica whose ref was moved from outside (a peer pushes straight into its repository) while its
+			// own clock stayed low, then a concurrent edit arrives over the shared remote
+			pp := syncw.Params{Replicas: 3, Oracles: "c01", Seed: seed, OneEdit: true, Peers: true, PeerPush: true, Closure: true,
+				Allow: "edit(A,1) edit(C,1) push(A,B) push(A,R) push(C,R) pull(B,R) pull(C,R)"}
+			runs = append(runs, syncRun{"3 replicas, a peer pushes straight into another replica's repository", pp, 7, 75 * time.Second})
 			// the host repacks its refs (git gc) while git-bug's handle on the repository stays open
 			pk := syncw.Params{Replicas: 2, Oracles: "c01", Seed: seed, OneEdit: true, PackRefs: true, Closure: true}
 			runs = append(runs, syncRun{"2 replicas, refs packed by stock git along the way (handles stay open)", pk, 5, 75 * time.Second})
